@@ -20,7 +20,7 @@ otherwise the explicit bound 1e-12*(1+sum|terms|) is used (class T).
 
 Not generated (statement silent / excluded by DESIGN): m=0 with size=None,
 hop>size, an all-zero window under normalisation (g undefined), empty windows,
-ola_size/ola_hop, an explicit hop=None in the STFT wrapper, the numpy
+ola_size different from size, an explicit hop=None in the STFT wrapper, the numpy
 strategies (numpy is absent, so transform/inverse_transform/before/after/ola
 are always given explicitly).
 """
@@ -434,6 +434,12 @@ def gen_stft_cfg(rng):
     else:
       cfg["ola_wnd"] = rwspec(rng, size, h, norm_on,
                               ("list", "tuple", "gen", "callable", "callgen"))
+    # the overlap-add's own geometry options travel the same way: a synthesis
+    # hop different from the analysis hop, the (same) size under its prefix
+    if rng.random() < .2:
+      cfg["ola_hop"] = rng.randint(1, size)
+    if rng.random() < .1:
+      cfg["ola_size"] = size
     for name in rng.sample(["ola_ola_x", "ola_zz", "ola_Wnd", "ola_ola_wnd",
                             "ola_olanormalize", "ola__"],
                            rng.choice([0, 0, 1, 2])):
@@ -457,6 +463,8 @@ def decoy_for(rng, key, val, size):
     return "spy2" if val is None or rng.random() < .7 else None
   if key == "ola_normalize":
     return not val
+  if key == "ola_hop":
+    return rng.choice([h for h in range(1, size + 2) if h != val])
   return val + 100
 
 
@@ -907,8 +915,9 @@ def run_stft(ctx, case):
   ws_spec = eff.get("ola_wnd")
   normalize = eff.get("ola_normalize", True)
   ws = wnd_values(ws_spec, size)
-  g = gain_of(ws, size, hop, normalize) if ola_on else Fraction(1)
-  if g is None or hop > size:
+  ohop = eff.get("ola_hop", hop) if ola_on else hop     # synthesis hop
+  g = gain_of(ws, size, ohop, normalize) if ola_on else Fraction(1)
+  if g is None or hop > size or ohop > size:
     ctx.count("stft:skipped-outside-statement")
     return False
 
@@ -940,7 +949,7 @@ def run_stft(ctx, case):
   out = apply_style(style, entry, func, kws, make_sig(x, sigkind))
   m = len(xb)
   if ola_on:
-    n_out = m * hop + size - hop
+    n_out = m * ohop + size - ohop
     got, exc, hit = drain(out, limit=n_out + size + 8)
   else:
     got, exc, hit = [], None, False
@@ -1048,9 +1057,17 @@ def run_stft(ctx, case):
   ctx.count("stft:ola-keywords-stripped-checked", len(stripped))
   if any(k.startswith("ola_") for k in stripped):
     ctx.count("stft:ola-double-prefix-checked")
+  if "ola_hop" in eff:
+    ctx.count("stft:ola_hop-given")
+    if ohop != hop:
+      ctx.count("stft:ola_hop-differs-from-hop")
+  if "ola_size" in eff:
+    ctx.count("stft:ola_size-given")
   if kw.get("size") != size or \
-     (hop_given and kw.get("hop") != hop) or \
-     (not hop_given and kw.get("hop") not in (None, size)):
+     ("ola_hop" in eff and kw.get("hop") != ohop) or \
+     ("ola_hop" not in eff and hop_given and kw.get("hop") != hop) or \
+     ("ola_hop" not in eff and not hop_given and
+      kw.get("hop") not in (None, size)):
     ctx.violation("stft/ola-size-hop", case, got_size=kw.get("size"),
                   got_hop=kw.get("hop", "<absent>"), size=size,
                   hop=hop if hop_given else None)
@@ -1062,7 +1079,7 @@ def run_stft(ctx, case):
     return True
 
   # ---- final output: the double sum over the processed blocks --------------
-  want, mag = ola_expected(processed, size, hop, ws, g)
+  want, mag = ola_expected(processed, size, ohop, ws, g)
   exact = is_pow2(g) and (ws is None or small_dyadic(ws))
   ctx.count("stft:output-exact" if exact else "stft:output-toleranced")
   if len(got) != len(want) or hit:
@@ -1072,7 +1089,7 @@ def run_stft(ctx, case):
     return True
   ctx.count("stft:samples-compared", len(want))
   compare(ctx, case, "stft/output-value", got, want, mag, exact,
-          "stft_toleranced", g=g, size=size, hop=hop)
+          "stft_toleranced", g=g, size=size, hop=ohop)
   return True
 
 
@@ -1153,6 +1170,8 @@ def finish(ctx):
   need("stft:func-inputs-checked", 1000)
   need("stft:windowed-func-inputs-checked", 500)
   need("stft:ola-keywords-stripped-checked", 300)
+  need("stft:ola_hop-differs-from-hop", 50)
+  need("stft:ola_size-given", 30)
   need("stft:samples-compared", 5000)
   need("reject:unknown", 50)
   need("reject:misplaced-ola", 50)
